@@ -777,6 +777,29 @@ fn directed(class: &str) -> Vec<Value> {
                 {"a": "rpc", "p": 0, "subs": [[0, true]]}, {"a": "close", "p": 0, "c": 0},
                 {"a": "rpc", "p": 0, "subs": [[0, false]]}, {"a": "connect", "p": 0, "c": 2, "out": false}, {"a": "close", "p": 0, "c": 1},
                 {"a": "rpc", "p": 0, "subs": [[0, true]]}, {"a": "hb"}]}));
+            // outbound quota: the mesh has mesh_n_low members but all inbound (< mesh_outbound_min outbound) and the only
+            // outbound, subscribed candidate is an EXPLICIT peer: the heartbeat's outbound top-up must not graft it
+            // (added after seeded mutant C28-2 was missed by the random schedules)
+            for inbound_first in [true, false] {
+                let mut cfg = base(3, 1, 2, 2, 3);
+                cfg["omin"] = json!(1);
+                cfg["explicit"] = json!([2]);
+                let mut ops = vec![json!({"a": "sub", "t": 0})];
+                let order: Vec<usize> = if inbound_first { vec![0, 1, 2] } else { vec![2, 0, 1] };
+                for &p in &order {
+                    ops.push(json!({"a": "connect", "p": p, "c": p, "out": p == 2}));
+                    ops.push(json!({"a": "kind", "p": p, "c": p}));
+                }
+                for &p in &order {
+                    ops.push(json!({"a": "rpc", "p": p, "subs": [[0, true]]}));
+                }
+                for _ in 0..4 {
+                    ops.push(json!({"a": "hb"}));
+                }
+                ops.push(json!({"a": "tick", "d": 2}));
+                ops.push(json!({"a": "hb"}));
+                v.push(json!({"cfg": cfg, "ops": ops}));
+            }
             // GRAFT at mesh_n_high, GRAFT during backoff, GRAFT with negative score, GRAFT from a floodsub peer
             v.push(json!({"cfg": base(4, 1, 1, 1, 2), "ops": [
                 {"a": "sub", "t": 0},
